@@ -425,7 +425,9 @@ func (x *envExec) do(op EnvOp) (ob EnvObs) {
 	x.crypto.TakeRetained()
 	x.kmsSpy.TakeRetained()
 	x.sf.FailedNew = nil
-	ctx := context.Background()
+	ctx, cancel := context.WithCancel(context.Background())
+	defer cancel()
+	x.faults.Cancel = cancel
 	var encRec *ae.DataRowRecord
 	func() {
 		defer func() {
